@@ -297,7 +297,18 @@ def explore_memory(res, auto_index, depth, shard, nshards):
             for oi, (name, fn) in enumerate(A):
                 if d == depth - 1 and (si * len(A) + oi) % nshards != shard:
                     continue
-                child = copy.deepcopy(db)
+                try:
+                    child = copy.deepcopy(db)
+                except Exception:  # noqa: BLE001 - not copyable (a lock, a weak reference, ...): rebuild the state by replay
+                    child = TinyFlux(storage=MemoryStorage, auto_index=auto_index)
+                    by_name = dict(A)
+                    with quiet_stdout():
+                        for done in path:
+                            try:
+                                by_name[done](child)
+                            except Exception:  # noqa: BLE001
+                                pass
+                    res.count("bfs.states_rebuilt_by_replay")
                 p = path + (name,)
                 ctx = {"config": cfg, "sequence": list(p), "replay": {"mode": "mem", "auto_index": auto_index, "sequence": list(p)}}
                 v = apply_op(res, child, name, fn, ctx)
